@@ -595,7 +595,7 @@ def _hists(rng, tier):
     nrand = 4000 if tier == "quick" else 40000
     for i in range(nrand):
         h = random_hist(rng, rng.choice([6, 10, 20, 40]), tiefree=(rng.random() < 0.3))
-        if i % 3 == 0 and small_batches(h):
+        if i % 3 == 0 and small_batches(h) and (tier == "thorough" or len(hist_labels(h)) <= 25):
             yield resolve_locks(h), None
         else:
             pr = rand_prios(rng, h)
